@@ -8,29 +8,38 @@ import vlib
 from vlib import Pool, run_tlc, log
 
 EV_VM = 4
+EV_OPS = 32
 KEEP = ("e", "fib", "ufib", "nf", "nh", "sl", "hx", "cd", "h", "fc", "path", "ok", "wcd")
+KEEP_OPS = KEEP + ("c", "pc", "sb", "code", "ckind", "cupv", "arity", "name")
 
 
-def write_trace(path, cases, replies):
-    """-> (number of events, [(first line, last line, case index)])  fiber addresses renamed per case to 1, 2, ..."""
+def write_trace(path, cases, replies, keep=KEEP):
+    """-> (number of events, [(first line, last line, case index)])  fiber (and chunk) addresses renamed per case to 1, 2, ..."""
     spans = []
     n = 0
     line = 0
+    nchunks = 0
     with open(path, "w") as f:
         for i, (c, r) in enumerate(zip(cases, replies)):
             if "events" not in r:
                 continue
             ids = {0: 0}
+            cids = {}
             first = line + 1
             f.write('{"e": "Reset"}\n')
             line += 1
             for ev in r["events"]:
                 if not isinstance(ev, dict) or ev.get("e") in ("Intern",):
                     continue
-                out = {k: ev[k] for k in KEEP if k in ev}
+                out = {k: ev[k] for k in keep if k in ev}
                 for k in ("fib", "ufib"):
                     if k in out:
                         out[k] = ids.setdefault(out[k], len(ids))
+                if "c" in out:
+                    if ev.get("e") == "Chunk":
+                        nchunks += 1
+                        cids[out["c"]] = nchunks              # numbered in file order (a re-announced address is a new chunk)
+                    out["c"] = cids.get(out["c"], 0)
                 f.write(json.dumps(out) + "\n")
                 line += 1
                 n += 1
@@ -75,6 +84,38 @@ def validate(rep, binary, bname, cases, what, tag="tracevm", timeout=120):
     else:
         os.remove(path)
     log("[tracevm] %s (%s): %d programs, %d events, TLC %.1fs" % (what, bname, len(spans), nev, tr.wall))
+    return len(spans), nev
+
+
+def validate_ops(rep, binary, bname, cases, what, tag="traceops", timeout=120):
+    """instruction-level trace validation: every executed instruction against Opcodes.tla / TraceOps.tla"""
+    for c in cases:
+        c["events"] = EV_VM | EV_OPS
+    replies = Pool(binary, "run", timeout=timeout).map(cases)
+    os.makedirs(os.path.join(vlib.WORK, "traces"), exist_ok=True)
+    path = os.path.join(vlib.WORK, "traces", "%s-%s-%d.ndjson" % (tag, bname, os.getpid()))
+    nev, spans = write_trace(path, cases, replies, keep=KEEP_OPS)
+    if not nev:
+        raise vlib.ToolError("no instruction events were recorded (%s)" % what)
+    tr = run_tlc("TraceOps", "TraceOps.cfg", workers=1, timeout=3000, env_extra={"TRACE": path},
+                 jvm=["-Dtlc2.tool.queue.IStateQueue=StateDeque"], tag=tag, xmx="12g")
+    if tr.violation or "REJECT" in tr.stdout:
+        rej = [ln for ln in tr.stdout.splitlines() if "REJECT" in ln]
+        text = (tr.violation or "")[:600] + "\n" + "\n".join(rej)[:1500]
+        m = re.search(r'REJECT (\d+)', tr.stdout + (tr.violation or ""))
+        culprit = None
+        if m:
+            d = int(m.group(1))
+            for first, last, i in spans:
+                if first <= d <= last:
+                    culprit = cases[i]
+                    break
+        rep.violation("TraceOps.tla rejects the instructions executed by %s (%s build): an instruction was fetched at an offset, or with a "
+                      "value-stack height, that the instruction table does not allow after the previous one\n%s" % (what, bname, text[-1800:]),
+                      {"trace": path, "program": culprit})
+    else:
+        os.remove(path)
+    log("[traceops] %s (%s): %d programs, %d events, TLC %.1fs" % (what, bname, len(spans), nev, tr.wall))
     return len(spans), nev
 
 
@@ -127,4 +168,61 @@ def selftest(binary):
                "hx corrupted": variant("hx", bump("EndFinally", "hx"))}
     if not results["unchanged"] or any(v for k, v in results.items() if k != "unchanged"):
         raise vlib.ToolError("TraceVm self-test failed (accepted: %r) - the trace specification does not bind the hooks" % results)
+    return sorted(k for k in results if k != "unchanged")
+
+
+def selftest_ops(binary):
+    """binding of TraceOps.tla: the recorded instruction trace of a fixed program is accepted; with one instruction event removed,
+    one stack height or one offset corrupted, or one Call / Landed event removed it is rejected"""
+    case = {"id": "selftest", "main": SELFTEST_SRC, "gc": "default", "events": EV_VM | EV_OPS}
+    r = Pool(binary, "run", workers=1, timeout=60).map([case])[0]
+    evs = [e for e in r.get("events", []) if isinstance(e, dict)]
+    if not any(e.get("e") == "Op" for e in evs):
+        raise vlib.ToolError("TraceOps self-test: no instruction events recorded")
+
+    def variant(name, f):
+        out = f([dict(e) for e in evs])
+        path = os.path.join(vlib.WORK, "traces", "toself-%s-%d.ndjson" % (name, os.getpid()))
+        os.makedirs(os.path.dirname(path), exist_ok=True)
+        write_trace(path, [case], [{"events": out}], keep=KEEP_OPS)
+        tr = run_tlc("TraceOps", "TraceOps.cfg", workers=1, timeout=300, env_extra={"TRACE": path},
+                     jvm=["-Dtlc2.tool.queue.IStateQueue=StateDeque"], tag="toself", xmx="2g")
+        os.remove(path)
+        return not (tr.violation or "REJECT" in tr.stdout)
+
+    def nth(kind, k):
+        return lambda es: [i for i, e in enumerate(es) if e.get("e") == kind][k]
+
+    def drop(kind, k):
+        def f(es):
+            i = nth(kind, k)(es)
+            return es[:i] + es[i + 1:]
+        return f
+
+    def bump(kind, k, field, by=1):
+        def f(es):
+            es[nth(kind, k)(es)][field] += by
+            return es
+        return f
+
+    def flip_code(es):
+        # the announced code of the script chunk with one instruction replaced by another of the same size but another effect (Nil -> Pop)
+        for e in es:
+            if e.get("e") == "Chunk":
+                for j, b in enumerate(e["code"]):
+                    if b == 1:
+                        e["code"][j] = 4
+                        return es
+        return es
+
+    results = {"unchanged": variant("ok", lambda es: es),
+               "one instruction event removed": variant("noop", drop("Op", 7)),
+               "stack height of one instruction corrupted": variant("sl", bump("Op", 9, "sl")),
+               "offset of one instruction corrupted": variant("pc", bump("Op", 11, "pc")),
+               "frame base of one instruction corrupted": variant("sb", bump("Op", 30, "sb")),
+               "Call event removed": variant("nocall", drop("Call", 0)),
+               "Landed event removed": variant("noland", drop("Landed", 0)),
+               "Return event removed": variant("noret", drop("Return", 0))}
+    if not results["unchanged"] or any(v for k, v in results.items() if k != "unchanged"):
+        raise vlib.ToolError("TraceOps self-test failed (accepted: %r) - the instruction-level trace specification does not bind the hooks" % results)
     return sorted(k for k in results if k != "unchanged")
